@@ -54,6 +54,10 @@ pub mod c14 {
 pub mod c20 {
     include!(concat!(env!("ETHERCRAB_VERIF_DIR"), "/c20.rs"));
 }
+#[cfg(kani)]
+pub mod c17 {
+    include!(concat!(env!("ETHERCRAB_VERIF_DIR"), "/c17.rs"));
+}
 #[cfg(all(kani, ethercrab_verif_h1))]
 pub mod c11 {
     include!(concat!(env!("ETHERCRAB_VERIF_DIR"), "/c11.rs"));
